@@ -143,6 +143,21 @@ CLAIMS["C16"] = dict(
          "differences are allowed by the property statement.",
     technique="grammar terminal-coverage scan + symbolic evaluation of token-list actions + lexer-action effect scan")
 
+CLAIMS["C02"] = dict(
+    level="other", engine="pyflow",
+    text="May-raise analysis of the repository-owned parse path: the semantic-value kinds of every nonterminal are computed as "
+         "a fixpoint over all grammar actions of the three dialects, and every action is abstractly interpreted once per "
+         "production it is attached to (1100+ specialisations; hasattr/getattr/len(p) folded from sly's name map, dead "
+         "branches pruned, isinstance/None/key/emptiness narrowing, callee and constructor summaries). Ten raise-capable "
+         "construct classes (dict key, production symbol, empty index, numeric conversion, arithmetic kinds, assert / "
+         "constructor precondition, attribute of None or wrong kind, exception class, iteration, constructor signature) are "
+         "either discharged or reported with the production that reaches them; non-action code on the path is checked for "
+         "exception classes, asserts, partial stdlib calls and complete made-up tokens. Termination, RecursionError and "
+         "exceptions inside sly/re are NOT decided; constructs outside the ten classes are assumed non-raising.",
+    note="Stated unsoundness: only the listed construct classes are considered raise-capable; unknown ('?') kinds are not "
+         "reported. Trusted: sly's YaccProduction name map semantics (read from sly/yacc.py).",
+    technique="abstract interpretation of grammar actions per production (kind lattice + narrowing) = may-raise analysis")
+
 NA_PENDING = "check under construction in this session; not claimed until its rule module is committed"
 
 
